@@ -147,13 +147,21 @@ class Engine:
 
 def discharge(ob, timeout_ms=10000):
     """Decide one obligation with z3: status 'proved' | 'failed' (with model) | 'unknown'."""
-    s = z3.Solver()
-    s.set("timeout", timeout_ms)
-    s.add(*ob.pc)
-    s.add(z3.Not(ob.goal))
     t0 = time.time()
-    r = s.check()
+    r = z3.unknown
+    # z3's sequence solver is unstable on identical input: an `unknown` is retried with other random seeds
+    for attempt, seed in enumerate((0, 7, 23)):
+        s = z3.Solver()
+        s.set("timeout", timeout_ms if attempt == 0 else max(timeout_ms // 2, 2000))
+        if seed:
+            s.set("random_seed", seed)
+        s.add(*ob.pc)
+        s.add(z3.Not(ob.goal))
+        r = s.check()
+        if r != z3.unknown:
+            break
     ob.solver_s = time.time() - t0
+    ob.attempts = attempt + 1
     ob.backend = "z3-" + z3.get_version_string()
     if r == z3.unsat:
         ob.status = "proved"
